@@ -133,7 +133,15 @@ def doc_for(rng, **kw):
 
 def gd_document(rng, opts):
     gen = gen_docs.DocGen(rng, **opts)
-    return gen.document()
+    doc = gen.document()
+    if rng.random() < 0.06:
+        # a document larger than any pipe or reader buffer (8 KiB and up)
+        pad = S("p" * rng.choice([5000, 9000, 70000]))
+        if doc["t"] == "m":
+            doc["i"].append([S("zzpad"), pad])
+        else:
+            doc["i"].append(pad)
+    return doc
 
 
 def render_doc(rng, doc, allow_json=True):
